@@ -7,6 +7,7 @@ use bytes::{Buf, Bytes, BytesMut};
 use serde_json::Value;
 use std::collections::VecDeque;
 use std::fmt::Write as _;
+#[cfg(feature = "std")]
 use std::io::{BufRead, Cursor, IoSlice, Read};
 use std::panic::{catch_unwind, AssertUnwindSafe};
 
@@ -89,6 +90,7 @@ pub trait Node: Buf {
 pub struct SliceLeaf(&'static [u8]);
 pub struct BytesLeaf(Bytes);
 pub struct BytesMutLeaf(BytesMut);
+#[cfg(feature = "std")]
 pub struct CursorLeaf(Cursor<Vec<u8>>);
 pub struct DequeLeaf(VecDeque<u8>);
 /// honest multi-chunk Buf that relies on the trait's default methods only
@@ -101,6 +103,7 @@ pub struct Chunked {
 forward_buf!(SliceLeaf, |s| &s.0, |m| &mut m.0);
 forward_buf!(BytesLeaf, |s| &s.0, |m| &mut m.0);
 forward_buf!(BytesMutLeaf, |s| &s.0, |m| &mut m.0);
+#[cfg(feature = "std")]
 forward_buf!(CursorLeaf, |s| &s.0, |m| &mut m.0);
 forward_buf!(DequeLeaf, |s| &s.0, |m| &mut m.0);
 
@@ -177,6 +180,7 @@ impl Node for BytesMutLeaf {
         false
     }
 }
+#[cfg(feature = "std")]
 impl Node for CursorLeaf {
     fn info(&self, out: &mut String) {
         let v = self.0.get_ref();
@@ -293,6 +297,7 @@ impl Buf for RefNode {
         let r: &mut dyn Node = self.r();
         lt(<&mut dyn Node as Buf>::chunk(&r))
     }
+    #[cfg(feature = "std")]
     fn chunks_vectored<'a>(&'a self, dst: &mut [IoSlice<'a>]) -> usize {
         let r: &'a mut dyn Node = unsafe { &mut *self.inner };
         let rr: &'a &'a mut dyn Node = Box::leak(Box::new(r));
@@ -363,6 +368,7 @@ pub fn build(v: &Value) -> Box<dyn Node> {
             m.extend_from_slice(&d);
             Box::new(BytesMutLeaf(m))
         }
+        #[cfg(feature = "std")]
         "cursor" => {
             let mut c = Cursor::new(bytes_of(&v["d"]));
             c.set_position(v["pos"].as_u64().unwrap_or(0));
@@ -439,6 +445,7 @@ fn run_buf_program(p: &Value, out: &mut String) {
                 "has_remaining" => res.flag = Buf::has_remaining(&*b),
                 "chunk" => res.v = Buf::chunk(&*b).to_vec(),
                 "advance" => b.advance(n),
+                #[cfg(feature = "std")]
                 "chunks_vectored" => {
                     static SENT: [u8; 3] = [250, 251, 252];
                     let k = n.min(64);
@@ -499,6 +506,7 @@ fn run_buf_program(p: &Value, out: &mut String) {
                     let path: Vec<u64> = o["path"].as_array().map(|a| a.iter().filter_map(|x| x.as_u64()).collect()).unwrap_or_default();
                     res.flag = b.advance_at(&path, n);
                 }
+                #[cfg(feature = "std")]
                 "read" => {
                     let avail = Buf::remaining(&**root.as_ref().unwrap());
                     let mut rd = root.take().unwrap().reader();
@@ -545,6 +553,7 @@ fn run_buf_program(p: &Value, out: &mut String) {
                     }
                     root = Some(rd.into_inner());
                 }
+                #[cfg(feature = "std")]
                 "fill_buf" => {
                     let mut rd = root.take().unwrap().reader();
                     match rd.fill_buf() {
@@ -553,6 +562,7 @@ fn run_buf_program(p: &Value, out: &mut String) {
                     }
                     root = Some(rd.into_inner());
                 }
+                #[cfg(feature = "std")]
                 "consume" => {
                     let mut rd = root.take().unwrap().reader();
                     let r2 = catch_unwind(AssertUnwindSafe(|| rd.consume(n)));
